@@ -1,14 +1,41 @@
 #!/usr/bin/env python3
 """MANIFEST.setup_cmd: build everything from files on disk (offline): translator output,
-the whole Lean library + driver, and the sanitized object cache of /repo's sources."""
-import os, sys, subprocess
+the sanitized object cache of /repo's sources, every harness, the generated Lean tables that
+depend on compiled objects, the whole Lean library and the driver."""
+import os, sys, glob, importlib
+from concurrent.futures import ThreadPoolExecutor
 HERE = os.path.dirname(os.path.abspath(__file__))
 sys.path.insert(0, HERE)
 import common as C
+
 ok, log = C.run_extract()
 print('extract', ok, log[-500:])
-ok2, log2 = C.lean_build(['AITB', 'aitb-driver'], timeout=3000)
-print('lean build', ok2, log2[-1500:] if not ok2 else '')
 lib, blog = C.build_lib()
 print('lib', lib, blog[-1500:] if lib is None else '')
-sys.exit(0 if (ok and ok2 and lib) else 1)
+specs = []
+for f in sorted(glob.glob(os.path.join(HERE, 'props', 'c*.py'))):
+    specs.append(importlib.import_module('props.' + os.path.splitext(os.path.basename(f))[0]).SPEC)
+
+
+def bh(spec):
+    if not spec.get('harness'):
+        return spec, None, ''
+    exe, hl = C.build_harness(spec['harness'], lib if spec.get('needs_lib', True) else None, extra_flags=spec.get('harness_flags', ()))
+    return spec, exe, hl
+
+
+allok = ok and lib is not None
+if lib is not None:
+    with ThreadPoolExecutor(max_workers=8) as ex:
+        for spec, exe, hl in ex.map(bh, specs):
+            print('harness', spec['id'], bool(exe) or not spec.get('harness'), hl[-800:] if (spec.get('harness') and not exe) else '')
+            if spec.get('harness') and not exe:
+                allok = False
+            if spec.get('post_build'):
+                try:
+                    spec['post_build'](C, lib, exe)
+                except Exception as e:
+                    print('post_build failed', spec['id'], e); allok = False
+ok2, log2 = C.lean_build(['AITB', 'aitb-driver'], timeout=3000)
+print('lean build', ok2, log2[-2500:] if not ok2 else '')
+sys.exit(0 if (allok and ok2) else 1)
